@@ -234,7 +234,13 @@ func TestVerifAlertsReplay(t *testing.T) {
 		t.Skip("VERIF_ALERTS_IN / VERIF_ALERTS_OUT not set")
 	}
 	log.SetOutput(io.Discard)
+	// the sqlite store commits with fsync; on a busy disk that dominates the run time, so the throw-away
+	// database lives on tmpfs when there is one (nothing about durability is claimed in this part)
 	dir := t.TempDir()
+	if shm, err := os.MkdirTemp("/dev/shm", "verif-c20-"); err == nil {
+		dir = shm
+		defer os.RemoveAll(shm)
+	}
 	config.InitializeTestingConfig(dir + "/")
 	if err := ConnectSiglensDB(); err != nil {
 		t.Fatalf("INFRA ConnectSiglensDB: %v", err)
@@ -251,7 +257,11 @@ func TestVerifAlertsReplay(t *testing.T) {
 	}
 
 	hook := &vHook{}
-	srv := httptest.NewServer(http.HandlerFunc(func(w http.ResponseWriter, r *http.Request) {
+	// The product builds a new http.Transport per notification (GetCertErrorForgivingHttpClient) and never closes its idle
+	// connection; against a keep-alive server every notification would leave one TCP connection open for the life of the
+	// process.  The loopback receivers therefore answer "Connection: close", and several of them share the load so that
+	// ephemeral ports in TIME_WAIT do not run out on long runs.
+	handler := http.HandlerFunc(func(w http.ResponseWriter, r *http.Request) {
 		var b alertutils.WebhookBody
 		data, _ := io.ReadAll(r.Body)
 		_ = json.Unmarshal(data, &b)
@@ -259,13 +269,19 @@ func TestVerifAlertsReplay(t *testing.T) {
 		hook.stats = append(hook.stats, b.Status)
 		hook.mu.Unlock()
 		w.WriteHeader(200)
-	}))
-	defer srv.Close()
-
-	contact := &alertutils.Contact{ContactName: "verif-contact", OrgId: 0,
-		Webhook: []alertutils.WebHookConfig{{Webhook: srv.URL + "/hook"}}}
-	if err := databaseObj.CreateContact(contact); err != nil {
-		t.Fatalf("INFRA CreateContact: %v", err)
+	})
+	contacts := []*alertutils.Contact{}
+	for i := 0; i < 6; i++ {
+		srv := httptest.NewUnstartedServer(handler)
+		srv.Config.SetKeepAlivesEnabled(false)
+		srv.Start()
+		defer srv.Close()
+		contact := &alertutils.Contact{ContactName: fmt.Sprintf("verif-contact-%d", i), OrgId: 0,
+			Webhook: []alertutils.WebHookConfig{{Webhook: srv.URL + "/hook"}}}
+		if err := databaseObj.CreateContact(contact); err != nil {
+			t.Fatalf("INFRA CreateContact: %v", err)
+		}
+		contacts = append(contacts, contact)
 	}
 
 	in, err := os.Open(inPath)
@@ -288,7 +304,7 @@ func TestVerifAlertsReplay(t *testing.T) {
 		if err := json.Unmarshal(sc.Bytes(), &b); err != nil {
 			t.Fatalf("INFRA bad behaviour line: %v", err)
 		}
-		tr := vRunOne(&b, contact, side, hook)
+		tr := vRunOne(&b, contacts[b.Id%len(contacts)], side, hook)
 		line, _ := json.Marshal(tr)
 		out.Write(line)
 		out.WriteByte('\n')
